@@ -80,6 +80,10 @@ known('C05', 'C05|KrillHerdOptimization|continuous-nan',
 known('C05', 'C05|VirusColonySearchOptimization|continuous-nan',
       'Virus Colony Search with lamda=0.05 (accepted): int(lamda * population) = 1 best virus, weights 0/0',
       'VirusColonySearchOptimization, lamda=0.05')
+known('C14', 'C14|get_bounds-raises|permutation-next-to-other-variables',
+      'Task.get_bounds builds a ragged array when a PermutationVariable (one coordinate whose bounds are lists) stands '
+      'next to any other variable: numpy raises "inhomogeneous shape"; no optimizer can run on such a task',
+      "Task(variables=[ContinuousVariable, PermutationVariable]).get_bounds()")
 
 FIXED = [
     "fixed: property=C07 0d03759 Task.seed typed float: every seeded run raised TypeError in np.random.seed",
